@@ -190,7 +190,7 @@ func (l *listener) Acceptor() transport.Acceptor {
 
 // Close listener
 func (l *listener) Close() error {
-	verifYieldAt("l.close", l.url)
+	verifYieldLock("l.close", l.url, &l.mutex)
 	l.bs.removeListener(l.url)
 	// remember the close: a Sync that has not created its acceptor yet must not start accepting
 	l.mutex.Lock()
